@@ -113,6 +113,19 @@ def histories(ctx):
                 lang, reg = rng.choice(codes), rng.choice(regs)
                 c.set_language_and_region(tag(lang, reg))
                 hist.append(("set", tag(lang, reg)))
+            elif r < 0.6:
+                # a call that is refused (not a qualifier string: an unset optional locale, a number, bytes) encodes nothing; when it raises, the
+                # configuration still carries the locale encoded before
+                arg = rng.choice([None, 5, b"en", ["en"], 3.5])
+                try:
+                    c.set_language_and_region(arg)
+                    hist.append(("set-accepted", repr(arg)))
+                    lang = None
+                except Exception as e:
+                    hist.append(("set-refused", repr(arg), type(e).__name__))
+                    ctx.count("history_refused_sets")
+                if lang is None:
+                    break   # accepted whatever it was: nothing defined to compare with
             elif r < 0.75:
                 c.get_qualifier()
                 hist.append(("get_qualifier",))
@@ -126,7 +139,8 @@ def histories(ctx):
                 ctx.violation("history-stale-or-wrong-locale", "after a sequence of set/read steps on one configuration object the reported locale is not the last one set",
                               {"history": hist, "got": got, "want": tag(lang, reg), "word": "%08x" % c.locale, "want_word": "%08x" % word(lang, reg)})
                 break
-        ctx.sig("hist", len(hist), len(lang), len(reg))
+        if lang is not None:
+            ctx.sig("hist", len(hist), len(lang), len(reg))
 
 
 def run(ctx):
